@@ -109,6 +109,20 @@ Proof.
   - intros Hs. destruct U as [E|[S1 _]]; [exact E | congruence].
 Qed.
 
+(* KNOWN FINDING (D30), witnessed in the model: a rejected add_channel of logical file 0 under set name "B" leaves the empty set
+   registered for logical file 0; logical file 1 then adds a channel under (CHANNEL, "B"), gets the same set from the physical
+   registry, and logical file 0's registry lists that channel too. (C20_reject_invisible is about the state right after the
+   rejected call, where the set is still empty and invisible; its hypothesis — a set with items in the physical registry
+   belongs to this logical file — is what fails later.) *)
+Example C20_refuted_rejected_set_adopted :
+  let ops := [OAddLF (RStr [72] HNone) (RInt 1); OAddLF (RStr [73] HNone) (RInt 2);
+              OAddChannel 0 (RStr [88] HNone) (Some [66]) RNone [(attr_index T_CHANNEL [117;110;105;116;115], PVal (RInt 5))] false None None None;
+              OAddChannel 1 (RStr [67] HNone) (Some [66]) RNone [] false None None None] in
+  let '(_, st, outs) := run_ops p_init b_init ops in
+  outs = [Accepted None; Accepted None; Rejected EType; Accepted (Some 0%nat)]
+  /\ map (fun f => reg_items st (l_reg f) T_CHANNEL) (b_lfs st) = [[0%nat]; [0%nat]].
+Proof. vm_compute. split; reflexivity. Qed.
+
 Print Assumptions C20_reject.
 Print Assumptions C20_copy_numbers.
 Print Assumptions C20_reject_invisible.
